@@ -321,6 +321,8 @@ def persist_remove(repo: Repo, rep):
                 rep.ok("R-REMOVE-GATE", f, uc, "unused_externals() computed after the rewrite")
     # definition of unused_externals / used_externals
     ue = repo.func("_find_external.py::unused_externals")
+    # the scan of the participating files is found by what it does (a loop over state().files_with_snapshots), not by its name
+    scanners = [g for g in repo.module("_find_external.py").funcs.values() if _scan_loops(g)]
     ok1 = False
     rets = [n for n in body_nodes(ue.node) if isinstance(n, ast.Return) and isinstance(n.value, ast.Name)]
     if rets:
@@ -334,19 +336,28 @@ def persist_remove(repo: Repo, rep):
             and norm(init[0].value.func).endswith(".list")
             and len(subs) >= 1
             and all(isinstance(s.value, ast.Call) and norm(s.value.func).endswith(".lookup_all") for s in subs)
-            and any(isinstance(l.iter, ast.Call) and any(getattr(t, "key", "") == "_find_external.py::used_externals" for t in cg.resolve_callee(l.iter, ue)) for l in loops)
+            and any(
+                (isinstance(l.iter, ast.Call) and any(t in scanners for t in cg.resolve_callee(l.iter, ue)))
+                # the scan written in place: `used = set()`, `for file in state().files_with_snapshots: used |= used_externals_in(..)`, `for name in used:`
+                or (isinstance(l.iter, ast.Name) and ue in scanners and any(isinstance(a_, ast.AugAssign) and isinstance(a_.op, ast.BitOr) and isinstance(a_.target, ast.Name) and a_.target.id == l.iter.id for sl in _scan_loops(ue) if isinstance(sl, ast.For) for a_ in ast.walk(sl)))
+                for l in loops
+            )
         )
     if ok1:
         rep.ok("R-REMOVE-GATE", ue, ue.node, "unused = storage.list() - lookup_all(name) for name in used_externals()")
     else:
         rep.violation("R-REMOVE-GATE", ue, ue.node, "unused_externals() is no longer `stored minus everything referenced`: referenced externals can be reported unused", construct="unused-def")
-    us = repo.func("_find_external.py::used_externals")
-    # a for statement or the (unfiltered) generator of a comprehension: both visit every registered file
-    loops = [n for n in body_nodes(us.node) if isinstance(n, ast.For) or (isinstance(n, ast.comprehension) and not n.ifs)]
-    if any(isinstance(l.iter, ast.Attribute) and attr_chain(l.iter) == ["state()", "files_with_snapshots"] for l in loops):
-        rep.ok("R-REMOVE-GATE", us, us.node, "used_externals() scans every file of state().files_with_snapshots")
+    if scanners:
+        for us in scanners:
+            rep.ok("R-REMOVE-GATE", us, us.node, f"{us.name}() scans every file of state().files_with_snapshots")
     else:
-        rep.violation("R-REMOVE-GATE", us, us.node, "used_externals() does not scan all of state().files_with_snapshots", construct="used-def")
+        rep.violation("R-REMOVE-GATE", ue, ue.node, "no function of _find_external.py scans all of state().files_with_snapshots for the externals in use", construct="used-def")
+
+
+def _scan_loops(g):
+    """for statements / unfiltered comprehension generators of g over state().files_with_snapshots: both visit every registered file"""
+    loops = [n for n in body_nodes(g.node) if isinstance(n, ast.For) or (isinstance(n, ast.comprehension) and not n.ifs)]
+    return [l for l in loops if isinstance(l.iter, ast.Attribute) and attr_chain(l.iter) == ["state()", "files_with_snapshots"]]
 
 
 def persist_unique(repo: Repo, rep):
@@ -627,6 +638,20 @@ def files_registered(repo: Repo, rep):
                     construct="module-conditional",
                 )
                 modvars.add(t_.id)
+    # "nothing but that result": a second definition of the variable (`if obj is undefined: module = None`) is the same dependence written as a statement
+    for st_ in cfg.stmts(ast.Assign):
+        v_ = st_.ast.value
+        for t_ in st_.ast.targets:
+            if isinstance(t_, ast.Name) and t_.id in modvars and not any(isinstance(x, ast.Call) and norm(x.func).endswith("getmodule") for x in ast.walk(v_)):
+                rep.violation(
+                    "R-FILES-REGISTERED",
+                    f,
+                    st_.ast,
+                    f"`{short(st_.ast, 70)}`: the variable that holds the calling module is also set to something that is not the result of inspect.getmodule(): whether the file is registered depends on "
+                    "something else than the module (e.g. on the value of the snapshot) - a file whose snapshots are all still empty is not registered, the externals a `create` writes into it look unused "
+                    "and a `trim` in the same session deletes them",
+                    construct="module-conditional",
+                )
     # ... and what is read from it (`module_file = getattr(module, "__file__", None)`)
     for _ in range(3):
         for st_ in cfg.stmts(ast.Assign):
@@ -687,7 +712,7 @@ def scan_total(repo: Repo, rep):
                     )
     rep.count("handlers_around_the_scan", n)
     if n == 0:
-        rep.ok("R-SCAN-TOTAL", repo.func("_find_external.py::used_externals"), None, "no exception handler around reading / parsing the participating files", site="src/inline_snapshot/_find_external.py: scan")
+        rep.ok("R-SCAN-TOTAL", repo.find_func("_find_external.py", "used_externals") or repo.func("_find_external.py::unused_externals"), None, "no exception handler around reading / parsing the participating files", site="src/inline_snapshot/_find_external.py: scan")
 
 
 def suffix_shape(repo: Repo, rep):
